@@ -91,6 +91,54 @@ Section Run.
               fb <- canonserialize t ;; Ok (VList [VList (rev_append vs []); VBytes fb])
           | _ => Unmodelled
           end
+        else if is (U"persist_history") then
+          match b with
+          | VList ops =>
+              (fix go (ops : list pv) (mem : pv) (file : option bytes) (outs : list pv) : res pv :=
+                 match ops with
+                 | [] => fb <- canonserialize mem ;;
+                         Ok (VList (rev_append outs [match file with Some f => VBytes f | None => VNone end; VBytes fb]))
+                 | VList (VStr op :: args) :: r =>
+                     if ustr_eqb op (U"write") then (f <- canonserialize mem ;; go r mem (Some f) outs)
+                     else if ustr_eqb op (U"load") then
+                       match file with
+                       | Some f => match load_bytes f with Some v => go r v file outs | None => Err JSONDecodeError end
+                       | None => Err OSErr
+                       end
+                     else if ustr_eqb op (U"sign") then
+                       match args with
+                       | [VBytes sd] => mem' <- sign_signable ed_pub ed_sign mem (VPriv sd) ;; go r mem' file outs
+                       | _ => Unmodelled
+                       end
+                     else if ustr_eqb op (U"verify") then
+                       match args with
+                       | [K; t; g] => match verify_signable ed_verify sha mem K t g with
+                                      | Unmodelled => Unmodelled
+                                      | o => go r mem file (VBool (is_ok o) :: outs)
+                                      end
+                       | _ => Unmodelled
+                       end
+                     else if ustr_eqb op (U"vroot") then
+                       match args with
+                       | [T] => match verify_root ed_verify sha T mem with
+                                | Unmodelled => Unmodelled
+                                | o => go r mem file (VBool (is_ok o) :: outs)
+                                end
+                       | _ => Unmodelled
+                       end
+                     else if ustr_eqb op (U"vdeleg") then
+                       match args with
+                       | [nm; T; g] => match verify_delegation ed_verify sha nm mem T g with
+                                       | Unmodelled => Unmodelled
+                                       | o => go r mem file (VBool (is_ok o) :: outs)
+                                       end
+                       | _ => Unmodelled
+                       end
+                     else Unmodelled
+                 | _ => Unmodelled
+                 end) ops a None []
+          | _ => Unmodelled
+          end
         else if is (U"serialize_and_sign") then serialize_and_sign ed_sign a b
         else if is (U"sign_signable") then sign_signable ed_pub ed_sign a b
         else if is (U"sign_sequence") then
